@@ -609,6 +609,11 @@ class ExtendedIndexedOperand(Operand):
                     size += 1 if fits_8_bit else 2
                     max_size = size
                     raw_post_byte |= 0x9C if fits_8_bit else 0x9D
+            elif additional_needs_resolution:
+                # The offset is the address of a label, which is 16 bits wide
+                raw_post_byte |= 0x99
+                size += 2
+                max_size = size
             else:
                 if additional.is_negative():
                     if additional.is_8_bit():
@@ -744,6 +749,11 @@ class IndexedOperand(Operand):
                     size += 1 if fits_8_bit else 2
                     max_size = size
                     raw_post_byte |= 0x8C if fits_8_bit else 0x8D
+            elif additional_needs_resolution:
+                # The offset is the address of a label, which is 16 bits wide
+                raw_post_byte |= 0x89
+                size += 2
+                max_size = size
             else:
                 if additional.is_negative():
                     if additional.is_4_bit():
